@@ -206,6 +206,59 @@ func (b *pb) spMut(s int, iter bool) {
 	}
 }
 
+// rebuildMotif: fill a list, read it, clear it, rebuild it (same pairs, possibly permuted), read
+// again - what people do with a query ("reset the filters, apply them again") and the classic way to
+// meet state that was cached by position or identity before the clear. Names come from a pool of
+// two, so duplicates and "same name at the same index again" are the rule.
+func (b *pb) rebuildMotif(u int) {
+	s := b.pickS()
+	if s == 0 || b.spOf[s] != u {
+		s = b.getsp(u)
+	}
+	p := b.party[u]
+	names := []string{b.g.Name(), b.g.Name()}
+	type kv struct{ n, v string }
+	var pairs []kv
+	k := b.r.Range(2, 5)
+	for i := 0; i < k; i++ {
+		pairs = append(pairs, kv{names[b.r.Intn(2)], b.g.Value()})
+	}
+	fill := func() {
+		for _, x := range pairs {
+			b.add(Op{K: "sp.append", P: p, H: s, A: QS(x.n), B: QS(x.v)})
+		}
+	}
+	reads := func() {
+		n := b.r.Range(1, 3)
+		for i := 0; i < n; i++ {
+			k := []string{"sp.get", "sp.has", "sp.getall", "sp.get"}[b.r.Intn(4)]
+			b.add(Op{K: k, P: p, H: s, A: QS(names[b.r.Intn(2)]), F: "observe"})
+		}
+	}
+	fill()
+	reads()
+	switch b.r.Intn(4) {
+	case 0, 1:
+		b.add(Op{K: "set", P: p, H: u, W: 7, A: ""})
+	case 2:
+		b.add(Op{K: "set", P: p, H: u, W: 7, A: "?"})
+	case 3:
+		b.add(Op{K: "sp.delete", P: p, H: s, A: QS(names[0])})
+		b.add(Op{K: "sp.delete", P: p, H: s, A: QS(names[1])})
+	}
+	if b.r.Chance(1, 3) { // permute
+		for i := len(pairs) - 1; i > 0; i-- {
+			j := b.r.Intn(i + 1)
+			pairs[i], pairs[j] = pairs[j], pairs[i]
+		}
+	}
+	if b.r.Chance(1, 3) {
+		pairs = append(pairs, kv{names[b.r.Intn(2)], b.g.Value()})
+	}
+	fill()
+	reads()
+}
+
 func (b *pb) spRead(s int) {
 	p := b.party[b.spOf[s]]
 	k := []string{"sp.get", "sp.getall", "sp.has", "sp.string"}[b.r.Intn(4)]
@@ -356,6 +409,10 @@ func genWorldPlan(prop string, master uint64, run int) Plan {
 		if r.Chance(3, 4) {
 			b.getsp(u)
 		}
+		if r.Chance(1, 8) {
+			b.rebuildMotif(u)
+			n = n / 3
+		}
 		kw := []int{12, r.Range(0, 3), r.Range(0, 3), r.Range(0, 2), r.Range(0, 1)} // mutate, SetSearch, read, getsp, observer
 		iter := r.Chance(1, 2)
 		for i := 0; i < n; i++ {
@@ -393,6 +450,10 @@ func genWorldPlan(prop string, master uint64, run int) Plan {
 		if early {
 			b.getsp(u)
 		}
+		if r.Chance(1, 10) {
+			b.rebuildMotif(u)
+			n = n / 3
+		}
 		sw := setterWeights(r, []int{1, 1, 1, 1, 1, 1, 2, 0, 2})
 		kw := []int{10, r.Range(1, 6), r.Range(0, 3), r.Range(0, 3), r.Range(0, 2)} // sp mutation, SetSearch, other setter, getsp, observer
 		for i := 0; i < n; i++ {
@@ -424,7 +485,11 @@ func genWorldPlan(prop string, master uint64, run int) Plan {
 			case 3:
 				b.getsp(u)
 			case 4:
-				b.observer(u)
+				if s := b.pickS(); s != 0 && r.Chance(1, 2) {
+					b.spRead(s)
+				} else {
+					b.observer(u)
+				}
 			}
 		}
 	case "C13":
